@@ -60,6 +60,7 @@ type FuncContract struct {
 	Borrows   []string    // parameters the callee neither retains nor describes in its clauses: objects reachable only through them are not published at the call
 	FreshObjs []writeSpec // objects reachable from the results that the callee allocated (heap, address term over the post-state; -1 = none)
 	PanicValue *Clause    // a claim (over $pv) about the value of any panic that leaves the function
+	Functional bool       // external pure function: its result is the uninterpreted function ext.<key> of its arguments
 	SpecArgs  string      // package variable (pkg.Var) whose function.Spec literal gives the callback preconditions
 	Writes    []writeSpec // single objects (heap, address term) the function may write besides its own allocations
 }
@@ -102,7 +103,7 @@ type Contracts struct {
 	Prelude []string // raw SMT text blocks from contract files (//@ smt ...)
 }
 
-var clauseHead = regexp.MustCompile(`^(func|extern|requires|ensures|panic_value|panics_may|panics|rejects|spec_args|may_panic|modifies|loop|inline|trusted|pure|tags|ghost|let|global|lemma|axiom|fresh|unroll|noverify|calls|expect|smt|havoc_all|publishes|writes|fresh_obj|frame_only|borrows)\b(\[[^\]]*\])?\s*(.*)$`)
+var clauseHead = regexp.MustCompile(`^(func|extern|requires|ensures|panic_value|panics_may|panics|rejects|spec_args|functional|may_panic|modifies|loop|inline|trusted|pure|tags|ghost|let|global|lemma|axiom|fresh|unroll|noverify|calls|expect|smt|havoc_all|publishes|writes|fresh_obj|frame_only|borrows)\b(\[[^\]]*\])?\s*(.*)$`)
 
 func loadContracts(files []string) (*Contracts, error) {
 	cs := &Contracts{Funcs: map[string]*FuncContract{}}
@@ -291,6 +292,8 @@ func (cs *Contracts) loadFile(path string) error {
 					}
 					c.Rejects = append(c.Rejects, cl)
 				}
+			case "functional":
+				c.Functional = true
 			case "spec_args":
 				c.SpecArgs = strings.TrimSpace(r.rest)
 			case "borrows":
